@@ -5,6 +5,8 @@ layout *nondet_layout(void);
 
 void h_align(void) { size_t a = nondet_size(), b = nondet_size(); layout_align(a, b); }
 void h_reserve(void) { layout *l = nondet_layout(); size_t in_size = nondet_size(), in_align = nondet_size(); layout_reserve(l, in_size, in_align); }
+size_t g_k;
+void h_add_union(void) { layout *l = nondet_layout(); vec_layout v; g_k = nondet_size(); layout_add_union(l, v); }
 void h_size(void) { layout *l = nondet_layout(); layout_size(l); }
 
 /* client lemma over the contracts only (both reserve calls replaced by their contract):
